@@ -577,6 +577,27 @@ class X:
             return _rename_x(s, ren, {})
         return s.map_atoms(lambda a: atom_subst(a, mapping))
 
+    def rewrite(s, table):
+        """deep rewrite of atoms: table maps atom key -> X (applied bottom-up, also inside function arguments)."""
+        def f(a):
+            if a.key in table: return table[a.key]
+            if a.tag == "fn":
+                args = [g.rewrite(table) if isinstance(g, X) else g for g in a.args]
+                r = mk_fn(a.name, args, a.kind)
+                if len(r.m) == 1 and not r.p:
+                    (b, e), = r.m.items()
+                    if b.key in table and e == 1 and r.c == ONE: return table[b.key]
+                return r
+            if a.tag == "idx":
+                return mk_idx(a.name, [g.rewrite(table) for g in a.args], a.kind)
+            if a.tag == "sum":
+                cnt, body = a.args
+                return mk_sum(a.name, cnt.rewrite(table), body.rewrite(table))
+            if a.tag == "conj":
+                return f(a.args[0]).conj()
+            return X.atom(a)
+        return s.map_atoms(f)
+
     def degree_in(s, scales):
         """homogeneity degree under atom -> lambda^w atom for atoms in `scales` (dict atom->weight);
         returns Fraction or raises Unknown if not homogeneous."""
@@ -786,6 +807,15 @@ def mk_fn(name, args, kind=None):
             if name == "ceil": return X.const(math.ceil(f))
     if name == "abs":
         return args[0].abs()
+    if name in ("min", "max"):
+        cs = [a.constval() for a in args]
+        if all(c is not None and c.im == 0 for c in cs):
+            return X.const((min if name == "min" else max)(Fr(c.re) for c in cs))
+        uniq = {}
+        for a in args: uniq[a.keystr()] = a
+        args = [uniq[k] for k in sorted(uniq)]
+        if len(args) == 1: return args[0]
+        kind = "real"
     return X.atom(Atom("fn", name, tuple(args), kind))
 
 
@@ -908,6 +938,8 @@ def _evalatom(a, env):
     if a.tag == "fn":
         av = [evalx(g, env) for g in a.args]
         nm = a.name
+        for pre, fnc in getattr(env, "fn_override", {}).items():
+            if nm.startswith(pre): return complex(fnc(av))
         if nm == "cis": return cmath.exp(1j * av[0])
         if nm == "cos": return cmath.cos(av[0])
         if nm == "sin": return cmath.sin(av[0])
